@@ -159,6 +159,12 @@ def _cmp_rule(ctx, index):
 
 def run(ctx):
     """entry"""
+    cf = None
+    gt = None
+    k = None
+    mode = None
+    n = None
+    ok = None
     index = ctx.index
     graph = RefGraph(index)
     eff = Effects(index)
@@ -169,100 +175,115 @@ def run(ctx):
         "everything reachable from ground_truth; CLI choices vs the conformance table."
     )
     ctx.assumptions += ["NOT decided: equivalence of the re-parsed interface with the truth; idempotence of black (value level)"]
-    visitor_rule(ctx, index)
-    _cmp_rule(ctx, index)
     from .c13 import _once
 
-    _once(ctx, index)
-    # ---------------------------------------------------------------- gate
-    cf = index.func("cdd.shared.conformance._conform_filename")
-    facts_at = {}
+    ctx.section(visitor_rule, ctx, index)
+    ctx.section(_cmp_rule, ctx, index)
+    ctx.section(_once, ctx, index)
+    def _sec_gate():
+        nonlocal cf, mode, ok
+        # ---------------------------------------------------------------- gate
+        cf = index.func("cdd.shared.conformance._conform_filename")
+        facts_at = {}
 
-    def on_expr(n, facts):
-        facts_at[id(n)] = facts
+        def on_expr(n, facts):
+            facts_at[id(n)] = facts
 
-    GuardWalker(on_expr=on_expr).walk_function(cf.node)
-    writes = [(n, w, mode) for n, w, mode in wm.wrapper_write_sites.get(cf.qual, ()) if isinstance(n, ast.Call)]
-    ctx.need(len(writes) >= 3, "expected three file() writes in _conform_filename, found {}".format(len(writes)))
-    n_trunc = 0
-    for call, _w, mode in writes:
-        facts = facts_at.get(id(call)) or {}
-        created = facts.get("path.isfile(filename)") is False
-        appended = facts.get("original_node is None") is True and mode == "a"
-        if created or appended:
-            ctx.ob("C12.gate", cf, short(call, 70), True, "creation write", line=call.lineno)
-            continue
-        n_trunc += 1
-        changed = any(k.startswith("cmp_ast(") and v is False for k, v in facts.items())
-        replaced = facts.get("rewrite_at_query.replaced") is True
-        ok = changed and replaced
-        ctx.ob(
-            "C12.gate",
-            cf,
-            short(call, 70),
-            ok,
-            ""
-            if ok
-            else "an existing target is rewritten without being dominated by {}: a second run is not a no-op".format(
-                " and ".join(x for x, y in (("`not cmp_ast(original, replacement)`", changed), ("`rewrite_at_query.replaced`", replaced)) if not y)
-            ),
-            line=call.lineno,
-        )
-    ctx.need(n_trunc >= 1, "the truncating write vanished from _conform_filename")
-    # ------------------------------------------------------------- targets
-    gt = index.func("cdd.shared.conformance.ground_truth")
-    reach = graph.reachable([gt.qual])
-    n_w = 0
-    for q in sorted(reach):
-        f = index.funcs.get(q)
-        if f is None or f.mod.is_test:
-            continue
-        for n, w, mode in wm.wrapper_write_sites.get(q, ()):
-            if not isinstance(n, ast.Call):
+        GuardWalker(on_expr=on_expr).walk_function(cf.node)
+        writes = [(n, w, mode) for n, w, mode in wm.wrapper_write_sites.get(cf.qual, ()) if isinstance(n, ast.Call)]
+        ctx.need(len(writes) >= 3, "expected three file() writes in _conform_filename, found {}".format(len(writes)))
+        n_trunc = 0
+        for call, _w, mode in writes:
+            facts = facts_at.get(id(call)) or {}
+            created = facts.get("path.isfile(filename)") is False
+            appended = facts.get("original_node is None") is True and mode == "a"
+            if created or appended:
+                ctx.ob("C12.gate", cf, short(call, 70), True, "creation write", line=call.lineno)
                 continue
-            n_w += 1
-            tf = index.funcs[w]
-            pa = None
-            for k in n.keywords:
-                if k.arg == "filename":
-                    pa = k.value
-            if pa is None and len(n.args) > tf.params.index("filename"):
-                pa = n.args[tf.params.index("filename")]
-            roots = param_roots(f, pa) if pa is not None else set()
-            ok = roots == {"filename"}
-            ctx.ob("C12.targets", f, short(n, 70), ok, "" if ok else "the file written depends on {} rather than on the listed target `filename`".format(sorted(roots)), line=n.lineno)
-        for e in wm.direct.get(q, ()):
-            n_w += 1
-            ctx.ob("C12.targets", f, e.call, False, "a primitive write sink reachable from sync outside cdd.shared.emit.file.file")
-    ctx.count("write_sites_reachable_from_ground_truth", n_w)
-    # truth_file read-only
-    opens = [n for n in iter_own(gt.node) if isinstance(n, ast.Call) and index.callee(gt.mod, n, gt) in OPEN_NAMES]
-    for o in opens:
-        if o.args and "truth_file" in norm(o.args[0]):
-            mode = try_fold(open_mode_arg(o)) if open_mode_arg(o) is not None else "r"
-            ok = isinstance(mode, str) and not any(c in mode for c in "wax+")
-            ctx.ob("C12.targets", gt, o, ok, "" if ok else "the truth file is opened with mode {!r}".format(mode))
-    # loop maps _conform_filename over the file lists with the loop's filename
-    lam = [n for n in iter_own(gt.node) if isinstance(n, ast.Call) and index.callee(gt.mod, n, gt) == cf.qual]
-    ctx.need(lam, "_conform_filename call vanished from ground_truth")
-    for c in lam:
-        kws = {k.arg: norm(k.value) for k in c.keywords}
-        ok = kws.get("filename") == "filename"
-        ctx.ob("C12.targets", gt, "_conform_filename(filename={})".format(kws.get("filename")), ok, "" if ok else "target file is not the loop's filename", line=c.lineno)
-    ctx.note(
-        "the truth file is itself listed among the targets and the loop does not skip it, so it can be rewritten "
-        "(re-emitted from its own interface); the property only asks that its interface be unchanged"
-    )
-    # --------------------------------------------------------------- table
-    from ..dispatch import cli_choices
-    from ..fold import ModuleEnv
+            n_trunc += 1
+            changed = any(k.startswith("cmp_ast(") and v is False for k, v in facts.items())
+            replaced = facts.get("rewrite_at_query.replaced") is True
+            ok = changed and replaced
+            ctx.ob(
+                "C12.gate",
+                cf,
+                short(call, 70),
+                ok,
+                ""
+                if ok
+                else "an existing target is rewritten without being dominated by {}: a second run is not a no-op".format(
+                    " and ".join(x for x, y in (("`not cmp_ast(original, replacement)`", changed), ("`rewrite_at_query.replaced`", replaced)) if not y)
+                ),
+                line=call.lineno,
+            )
+        ctx.need(n_trunc >= 1, "the truncating write vanished from _conform_filename")
 
-    truth = cli_choices(index, ModuleEnv(index)).get(("sync", "--truth"))
-    table = None
-    for n in iter_own(gt.node):
-        if isinstance(n, ast.Assign) and norm(n.targets[0]) == "arg2parse_emit_type" and isinstance(n.value, ast.Dict):
-            table = [k.value for k in n.value.keys if isinstance(k, ast.Constant)]
-    ctx.need(truth and table, "cannot read --truth choices / arg2parse_emit_type")
-    for t in truth:
-        ok = t in table
-        ctx.ob("C12.table", gt, "sync --truth {}".format(t), ok, "" if ok else "admitted by the CLI but absent from arg2parse_emit_type {}".format(table), line=gt.node.lineno)
+    ctx.section(_sec_gate)
+
+    def _sec_targets():
+        nonlocal gt, k, mode, n, ok
+        # ------------------------------------------------------------- targets
+        gt = index.func("cdd.shared.conformance.ground_truth")
+        reach = graph.reachable([gt.qual])
+        n_w = 0
+        for q in sorted(reach):
+            f = index.funcs.get(q)
+            if f is None or f.mod.is_test:
+                continue
+            for n, w, mode in wm.wrapper_write_sites.get(q, ()):
+                if not isinstance(n, ast.Call):
+                    continue
+                n_w += 1
+                tf = index.funcs[w]
+                pa = None
+                for k in n.keywords:
+                    if k.arg == "filename":
+                        pa = k.value
+                if pa is None and len(n.args) > tf.params.index("filename"):
+                    pa = n.args[tf.params.index("filename")]
+                roots = param_roots(f, pa) if pa is not None else set()
+                ok = roots == {"filename"}
+                ctx.ob("C12.targets", f, short(n, 70), ok, "" if ok else "the file written depends on {} rather than on the listed target `filename`".format(sorted(roots)), line=n.lineno)
+            for e in wm.direct.get(q, ()):
+                n_w += 1
+                ctx.ob("C12.targets", f, e.call, False, "a primitive write sink reachable from sync outside cdd.shared.emit.file.file")
+        ctx.count("write_sites_reachable_from_ground_truth", n_w)
+        # truth_file read-only
+        opens = [n for n in iter_own(gt.node) if isinstance(n, ast.Call) and index.callee(gt.mod, n, gt) in OPEN_NAMES]
+        for o in opens:
+            if o.args and "truth_file" in norm(o.args[0]):
+                mode = try_fold(open_mode_arg(o)) if open_mode_arg(o) is not None else "r"
+                ok = isinstance(mode, str) and not any(c in mode for c in "wax+")
+                ctx.ob("C12.targets", gt, o, ok, "" if ok else "the truth file is opened with mode {!r}".format(mode))
+        # loop maps _conform_filename over the file lists with the loop's filename
+        lam = [n for n in iter_own(gt.node) if isinstance(n, ast.Call) and index.callee(gt.mod, n, gt) == cf.qual]
+        ctx.need(lam, "_conform_filename call vanished from ground_truth")
+        for c in lam:
+            kws = {k.arg: norm(k.value) for k in c.keywords}
+            ok = kws.get("filename") == "filename"
+            ctx.ob("C12.targets", gt, "_conform_filename(filename={})".format(kws.get("filename")), ok, "" if ok else "target file is not the loop's filename", line=c.lineno)
+        ctx.note(
+            "the truth file is itself listed among the targets and the loop does not skip it, so it can be rewritten "
+            "(re-emitted from its own interface); the property only asks that its interface be unchanged"
+        )
+
+    ctx.section(_sec_targets)
+
+    def _sec_table():
+        nonlocal n, ok
+        # --------------------------------------------------------------- table
+        from ..dispatch import cli_choices
+        from ..fold import ModuleEnv
+
+        truth = cli_choices(index, ModuleEnv(index)).get(("sync", "--truth"))
+        table = None
+        for n in iter_own(gt.node):
+            if isinstance(n, ast.Assign) and norm(n.targets[0]) == "arg2parse_emit_type" and isinstance(n.value, ast.Dict):
+                table = [k.value for k in n.value.keys if isinstance(k, ast.Constant)]
+        ctx.need(truth and table, "cannot read --truth choices / arg2parse_emit_type")
+        for t in truth:
+            ok = t in table
+            ctx.ob("C12.table", gt, "sync --truth {}".format(t), ok, "" if ok else "admitted by the CLI but absent from arg2parse_emit_type {}".format(table), line=gt.node.lineno)
+
+    ctx.section(_sec_table)
+
